@@ -8,7 +8,7 @@ from harness import c18_crash, c18_resume
 
 PROP = 'C18'
 MODEL_MODULES = ['TenpyModel.Util.J', 'TenpyModel.C18.FS', 'TenpyModel.C18.Loop']
-PROPS_MODULES = ['TenpyModel.C18.PropsCrash', 'TenpyModel.C18.PropsResume']
+PROPS_MODULES = ['TenpyModel.C18.PropsCrash', 'TenpyModel.C18.PropsResume', 'TenpyModel.C18.Props2']
 LEAN_MODULES = PROPS_MODULES
 LEVEL = 'proof'
 BUDGET = {'quick': 240, 'thorough': 1800}
